@@ -14,8 +14,10 @@ if grep -rnE '\b(Admitted|admit|Axiom|Parameter|Conjecture|Unset Guard|bypass_ch
   echo "forbidden construct in Coq sources" >&2; exit 2
 fi
 coq_makefile -f _CoqProject -o Makefile >/dev/null
-timeout 3000 make -j16 2>&1 | grep -v '^COQ\|^make\[' || true
-# make's status is lost in the pipe; verify all .vo exist
+mk=0; timeout 3000 make -j16 > .build.log 2>&1 || mk=$?
+grep -v '^COQ\|^make\[' .build.log || true
+[ $mk -eq 0 ] || { echo "BUILD FAILED: make exited $mk" >&2; exit 2; }
+# belt and braces: all .vo exist and are newer than their source
 for v in $(grep '\.v$' _CoqProject); do
   [ -f "${v}o" ] || { echo "BUILD FAILED: ${v}o missing" >&2; exit 2; }
   [ "${v}o" -nt "$v" ] || { echo "BUILD FAILED: ${v}o stale" >&2; exit 2; }
